@@ -58,25 +58,27 @@ func (e *Engine) verifyFunc(fn *ssa.Function, ct *Contract, prop string) *Run {
 	outs := r.execFunc(fn, st, args, bind, 0, true)
 	r.retPaths = len(outs)
 	// vacuity guard: some return path must be reachable under the contracts assumed along it (an inconsistent callee contract or
-	// invariant makes every postcondition hold vacuously). The path with the most calls and the one with the fewest are probed.
+	// invariant makes every postcondition hold vacuously). One query: the disjunction of the path conditions of (up to 64) return paths.
 	if len(outs) > 0 {
-		lo, hi := outs[0], outs[0]
-		for _, o := range outs {
-			if len(o.st.trace) < len(lo.st.trace) {
-				lo = o
+		var alts []string
+		uses := map[string]bool{}
+		step := 1
+		if len(outs) > 64 {
+			step = (len(outs) + 63) / 64
+		}
+		for i := 0; i < len(outs); i += step {
+			o := outs[i]
+			alts = append(alts, and(o.st.pc...))
+			for u := range o.st.uses {
+				uses[u] = true
 			}
-			if len(o.st.trace) > len(hi.st.trace) {
-				hi = o
-			}
 		}
-		probes := []Outcome{hi}
-		if lo.st != hi.st {
-			probes = append(probes, lo)
+		pc := alts[0]
+		if len(alts) > 1 {
+			pc = app("or", alts...)
 		}
-		for _, o := range probes {
-			r.queries = append(r.queries, &Query{Name: r.name + "/cover:return", Props: ct.Props, Fn: r.name, Kind: "cover", PC: append([]string(nil), o.st.pc...),
-				Uses: sortedKeys(o.st.uses), Goal: "false", Cover: true, Run: r})
-		}
+		r.queries = append(r.queries, &Query{Name: r.name + "/cover:return", Props: ct.Props, Fn: r.name, Kind: "cover", PC: []string{pc},
+			Uses: sortedKeys(uses), Goal: "false", Cover: true, Run: r})
 	}
 	res := fn.Signature.Results()
 	for _, o := range outs {
